@@ -373,7 +373,12 @@ class Export(object):
                                            data=ds[feat],
                                            filtarr=filter_arr)
 
-            if basins:
+            if basins and filter_arr is not None and not np.any(filter_arr):
+                # No event is selected. There is nothing that could be
+                # mapped to a basin (and empty mapping features cannot
+                # be stored), so the output file does not get any basins.
+                pass
+            elif basins:
                 # We have to store basins. There are three options:
                 # - filtering disabled: just copy basins
                 # - filtering enabled
